@@ -428,8 +428,9 @@ def rules(rep, facts):
         from .rules_print import r15_printed_documents
         r15_printed_documents(rep, facts, rid='C08/R9')
         if 'parse' in set(facts.crates.get('toml_edit', {}).get('features', [])):
-            from .rules_events import r_edits
+            from .rules_events import r_edits, r_value_edits
             r_edits(rep, facts)
+            r_value_edits(rep, facts)
         r4_placement(rep, facts)
         R5 = rep.rule('C08/R5', 'array printing follows the edited state: separator for every element but the first, trailing comma only '
                       'when the flag is set and the array is non-empty (emptying an array never prints `[,]`)', floor=2)
